@@ -301,7 +301,7 @@ func (v *Backend) String() string {
 func (v *Backend) Type() Type      { return BackendType }
 func (v *Backend) IsLiteral() bool { return v.Literal }
 func (v *Backend) Copy() Value {
-	return &Backend{Value: v.Value, Director: v.Director, Literal: v.Literal}
+	return &Backend{Value: v.Value, Director: v.Director, Literal: v.Literal, Healthy: v.Healthy}
 }
 
 type Acl struct {
